@@ -662,25 +662,22 @@ pub fn check_drops(w: &mut World) {
     }
     for t in 0..w.toks.len() {
         if w.toks[t].drops == 0 {
-            let p = w.path(w.toks[t].producer);
+            let p = w.toks[t].producer.map(|n| w.path(n)).unwrap_or_else(|| "the harness".into());
             w.violate(Oracle::D, format!("value t{} produced by {} was never dropped (leaked)", t, p));
         }
     }
     // everything that was returned must have been produced by a child
-    let ntoks = w.toks.len() as u32;
     if let Some(top) = w.top {
         let mut bad = None;
         for p in &w.nodes[top].polls {
             if let Answer::Ready(s) | Answer::Item(s) = &p.answer {
-                let mut ts = Vec::new();
-                s.toks(&mut ts);
-                if let Some(t) = ts.iter().find(|t| **t >= ntoks) {
-                    bad = Some(*t);
+                if let Some(t) = s.has_unknown() {
+                    bad = Some(t);
                 }
             }
         }
         if let Some(t) = bad {
-            w.violate(Oracle::D, format!("the combinator returned a value (id {:#x}) that no child produced", t));
+            w.violate(Oracle::D, format!("the combinator returned a value (handle {:#x}) that no child produced", t));
         }
     }
 }
